@@ -11,6 +11,10 @@ CONSTANTS
   CatchUpWriteErrorFatal = FALSE
   SwallowWriteError = FALSE
   AnnounceBeforeWrite = FALSE
+  MaxReads = 0
+  CachedAccessor = FALSE
+  ErrKinds = {"transport", "timeout", "notfound", "cancel"}
+  NotFoundMeansLatest = FALSE
   FinalityAfterNotices = TRUE
 INIT Init
 NEXT Next
